@@ -929,6 +929,19 @@ func (t *TypeSystem) relationInvolves(objectType, relation string, visited map[s
 	return false, nil
 }
 
+// markHasEntrypoint records in the caller's visited relations that the relation has an entrypoint. A positive
+// result does not depend on the path it was found on, so the sibling operands of the caller can reuse it instead
+// of walking the relation again (which is exponential when relations are referenced more than once).
+func markHasEntrypoint(visitedRelations map[string]map[string]bool, typeName, relationName string) {
+	if visitedRelations == nil {
+		return
+	}
+	if visitedRelations[typeName] == nil {
+		visitedRelations[typeName] = map[string]bool{}
+	}
+	visitedRelations[typeName][relationName] = true
+}
+
 // hasEntrypoints recursively walks the rewrite definition for the given relation to determine if there is at least
 // one path in the rewrite rule that could relate to at least one concrete object type. If there is no such path that
 // could lead to at least one relationship with some object type, then false is returned along with an error indicating
@@ -981,7 +994,10 @@ func hasEntrypoints(
 				return false, false, fmt.Errorf("undefined type definition for '%s#%s'", assignableTypeName, assignableRelationName)
 			}
 
-			if _, ok := v[assignableTypeName][assignableRelationName]; ok {
+			if hasEntrypoint, ok := v[assignableTypeName][assignableRelationName]; ok {
+				if hasEntrypoint {
+					return true, false, nil
+				}
 				continue
 			}
 
@@ -991,6 +1007,7 @@ func hasEntrypoints(
 			}
 
 			if hasEntrypoint {
+				markHasEntrypoint(visitedRelations, assignableTypeName, assignableRelationName)
 				return true, false, nil
 			}
 		}
@@ -1011,6 +1028,10 @@ func hasEntrypoints(
 		hasEntrypoint, loop, err := hasEntrypoints(typedefs, typeName, computedRelationName, computedRelation.GetRewrite(), v)
 		if err != nil {
 			return false, false, err
+		}
+
+		if hasEntrypoint {
+			markHasEntrypoint(visitedRelations, typeName, computedRelationName)
 		}
 
 		return hasEntrypoint, loop, nil
@@ -1041,6 +1062,7 @@ func hasEntrypoints(
 				}
 
 				if hasEntrypoint {
+					markHasEntrypoint(visitedRelations, assignableTypeName, computedRelationName)
 					return true, false, nil
 				}
 			}
